@@ -618,150 +618,158 @@ Definition add_named (st : sstate) (labs : list name) (mk : option name -> optio
               end
   end.
 
+(* what a statement does once its labels, kind and operands are known *)
+Definition stmt_exec (k : stkind) (labs : list name) (st1 : sstate) (sops : list sop) (dots : bool)
+  (rest : list ttok) : sstep :=
+  let fail := SFail "wrong statement" in
+  let ok (o : option sstate) := match o with Some s => SNext s rest | None => fail end in
+  match k with
+  | KModule =>
+      match ss_mod st1, sops, labs with
+      | None, [], [n] =>
+          SNext (mkSstate (ss_mods st1) (Some (n, [])) (ss_func st1) [] (ss_next st1)) rest
+      | _, _, _ => fail
+      end
+  | KEndmodule =>
+      match ss_mod st1, sops with
+      | Some (n, items), [] =>
+          SNext (mkSstate (mkModule n (rev items) :: ss_mods st1) None (ss_func st1)
+                   (ss_labels st1) (ss_next st1)) rest
+      | _, _ => fail
+      end
+  | KBss =>
+      match sops with
+      | [POp (OInt len)] =>
+          if len <? 0 then fail else ok (add_named st1 labs (fun n => Some (ItBss n len)))
+      | _ => fail
+      end
+  | KRef =>
+      match sops with
+      | [POp (ORef it); POp (OInt d)] => ok (add_named st1 labs (fun n => Some (ItRef n it d)))
+      | _ => fail
+      end
+  | KLref =>
+      match sops with
+      | [POp (OLabel l)] => ok (add_named st1 labs (fun n => Some (ItLref n l None 0)))
+      | [POp (OLabel l); POp (OLabel l2)] => ok (add_named st1 labs (fun n => Some (ItLref n l (Some l2) 0)))
+      | [POp (OLabel l); POp (OInt d)] => ok (add_named st1 labs (fun n => Some (ItLref n l None d)))
+      | [POp (OLabel l); POp (OLabel l2); POp (OInt d)] =>
+          ok (add_named st1 labs (fun n => Some (ItLref n l (Some l2) d)))
+      | _ => fail
+      end
+  | KExpr =>
+      match sops with
+      | [POp (ORef f)] =>
+          if declared_func (as_rstate st1) f then ok (add_named st1 labs (fun n => Some (ItExpr n f)))
+          else fail
+      | _ => fail
+      end
+  | KString =>
+      match sops with
+      | [POp (OStr s)] => ok (add_named st1 labs (fun n => Some (ItData n TU8 (map Z.of_N s))))
+      | _ => fail
+      end
+  | KProto =>
+      match ss_mod st1, split_sig sops, labs with
+      | Some _, Some (res, args), [n] =>
+          ok (match add_item (as_rstate st1) (ItProto n dots res args) with
+              | Some rs => Some (set_core st1 rs) | None => None end)
+      | _, _, _ => fail
+      end
+  | KFunc =>
+      match ss_mod st1, ss_func st1, split_sig sops, labs with
+      | Some _, None, Some (res, args), [n] =>
+          SNext (mkSstate (ss_mods st1) (ss_mod st1) (Some (mkFstate n dots res args [] [] []))
+                   (ss_labels st1) (ss_next st1)) rest
+      | _, _, _, _ => fail
+      end
+  | KEndfunc =>
+      match ss_mod st1, ss_func st1, sops with
+      | Some (n, items), Some fs, [] =>
+          SNext (mkSstate (ss_mods st1) (Some (n, ItFunc (close_func fs) :: items)) None
+                   (ss_labels st1) (ss_next st1)) rest
+      | _, _, _ => fail
+      end
+  | KExport | KImport | KForward => match sops with [] => SNext st1 rest | _ => fail end
+  | KLocal | KGlobal =>
+      match ss_func st1 with
+      | None => fail
+      | Some fs =>
+          match fold_left (fun acc s =>
+                    match acc, s with
+                    | Some (ls, gs), PVar t n None => Some ((t, n) :: ls, gs)
+                    | Some (ls, gs), PVar t n (Some h) => Some (ls, (t, n, h) :: gs)
+                    | _, _ => None
+                    end) sops (Some (fs_locals fs, fs_globals fs)) with
+          | Some (ls, gs) =>
+              SNext (mkSstate (ss_mods st1) (ss_mod st1)
+                       (Some (mkFstate (fs_name fs) (fs_vararg fs) (fs_res fs) (fs_args fs) ls gs
+                                (fs_insns fs))) (ss_labels st1) (ss_next st1)) rest
+          | None => fail
+          end
+      end
+  | KData t =>
+      match all_ops sops with
+      | Some ops =>
+          match map_opt (data_el t) ops with
+          | Some els => ok (add_named st1 labs (fun n => Some (ItData n t els)))
+          | None => fail
+          end
+      | None => fail
+      end
+  | KInsn c =>
+      match all_ops sops with
+      | Some ops =>
+          if (negb (var_arity c) && negb (Nat.eqb (length ops) (insn_nops c)))%bool then fail
+          else
+            match ss_func st1 with
+            | Some fs =>
+                SNext (mkSstate (ss_mods st1) (ss_mod st1)
+                         (Some (mkFstate (fs_name fs) (fs_vararg fs) (fs_res fs) (fs_args fs)
+                                  (fs_locals fs) (fs_globals fs) (IInsn c ops :: fs_insns fs)))
+                         (ss_labels st1) (ss_next st1)) rest
+            | None => SNext st1 rest            (* insn outside a function is dropped *)
+            end
+      | None => fail
+      end
+  end.
+
+(* the label count rules, checked before the operands *)
+Definition label_count_bad (k : stkind) (nl : nat) : bool :=
+  match k with
+  | KModule | KProto | KFunc => negb (Nat.eqb nl 1)
+  | KEndmodule | KExport | KImport | KForward | KLocal | KGlobal => negb (Nat.eqb nl 0)
+  | KEndfunc | KInsn _ => false
+  | _ => Nat.ltb 1 nl
+  end.
+
+Definition scan_body (fuel : nat) (st : sstate) (ts1 : list ttok) : sstep :=
+  match parse_labels fuel ts1 [] with
+  | None => SFail "insn should start with label or insn name"
+  | Some (labs, nm, ts2) =>
+      match stmt_kind nm with
+      | None => SFail "unknown insn"
+      | Some k =>
+          if label_count_bad k (length labs) then SFail "wrong number of labels"
+          else if (is_var k && negb (is_some (ss_func st)))%bool then SFail "local/global outside func"
+          else
+            match (match k with KInsn _ | KEndfunc => def_labels st labs | _ => Some st end) with
+            | None => SFail "redefinition of label"
+            | Some st0 =>
+                if (match k, ss_func st with KEndfunc, None => negb (Nat.eqb (length labs) 0) | _, _ => false end)
+                then SFail "endfunc should have no labels" else
+                match parse_ops fuel k st0 [] ts2 with
+                | None => SFail "wrong operand or insn end"
+                | Some (sops, dots, st1, rest) => stmt_exec k labs st1 sops dots rest
+                end
+            end
+      end
+  end.
+
 Definition scan_stmt (fuel : nat) (st : sstate) (ts : list ttok) : sstep :=
   match skip_nl ts with
   | TEOF :: _ => SDone st
-  | ts1 =>
-      match parse_labels fuel ts1 [] with
-      | None => SFail "insn should start with label or insn name"
-      | Some (labs, nm, ts2) =>
-          match stmt_kind nm with
-          | None => SFail "unknown insn"
-          | Some k =>
-              (* label count rules checked before the operands *)
-              let nl := length labs in
-              if (match k with
-                  | KModule | KProto | KFunc => negb (Nat.eqb nl 1)
-                  | KEndmodule | KExport | KImport | KForward | KLocal | KGlobal => negb (Nat.eqb nl 0)
-                  | KEndfunc | KInsn _ => false
-                  | _ => Nat.ltb 1 nl
-                  end) then SFail "wrong number of labels"
-              else if (is_var k && negb (is_some (ss_func st)))%bool then SFail "local/global outside func"
-              else
-                match (match k with KInsn _ | KEndfunc => def_labels st labs | _ => Some st end) with
-                | None => SFail "redefinition of label"
-                | Some st0 =>
-                    if (match k, ss_func st with KEndfunc, None => negb (Nat.eqb nl 0) | _, _ => false end)
-                    then SFail "endfunc should have no labels" else
-                    match parse_ops fuel k st0 [] ts2 with
-                    | None => SFail "wrong operand or insn end"
-                    | Some (sops, dots, st1, rest) =>
-                        let fail := SFail "wrong statement" in
-                        let ok (o : option sstate) := match o with Some s => SNext s rest | None => fail end in
-                        match k with
-                        | KModule =>
-                            match ss_mod st1, sops, labs with
-                            | None, [], [n] =>
-                                SNext (mkSstate (ss_mods st1) (Some (n, [])) (ss_func st1) [] (ss_next st1)) rest
-                            | _, _, _ => fail
-                            end
-                        | KEndmodule =>
-                            match ss_mod st1, sops with
-                            | Some (n, items), [] =>
-                                SNext (mkSstate (mkModule n (rev items) :: ss_mods st1) None (ss_func st1)
-                                         (ss_labels st1) (ss_next st1)) rest
-                            | _, _ => fail
-                            end
-                        | KBss =>
-                            match sops with
-                            | [POp (OInt len)] =>
-                                if len <? 0 then fail else ok (add_named st1 labs (fun n => Some (ItBss n len)))
-                            | _ => fail
-                            end
-                        | KRef =>
-                            match sops with
-                            | [POp (ORef it); POp (OInt d)] => ok (add_named st1 labs (fun n => Some (ItRef n it d)))
-                            | _ => fail
-                            end
-                        | KLref =>
-                            match sops with
-                            | [POp (OLabel l)] => ok (add_named st1 labs (fun n => Some (ItLref n l None 0)))
-                            | [POp (OLabel l); POp (OLabel l2)] => ok (add_named st1 labs (fun n => Some (ItLref n l (Some l2) 0)))
-                            | [POp (OLabel l); POp (OInt d)] => ok (add_named st1 labs (fun n => Some (ItLref n l None d)))
-                            | [POp (OLabel l); POp (OLabel l2); POp (OInt d)] =>
-                                ok (add_named st1 labs (fun n => Some (ItLref n l (Some l2) d)))
-                            | _ => fail
-                            end
-                        | KExpr =>
-                            match sops with
-                            | [POp (ORef f)] =>
-                                if declared_func (as_rstate st1) f then ok (add_named st1 labs (fun n => Some (ItExpr n f)))
-                                else fail
-                            | _ => fail
-                            end
-                        | KString =>
-                            match sops with
-                            | [POp (OStr s)] => ok (add_named st1 labs (fun n => Some (ItData n TU8 (map Z.of_N s))))
-                            | _ => fail
-                            end
-                        | KProto =>
-                            match ss_mod st1, split_sig sops, labs with
-                            | Some _, Some (res, args), [n] =>
-                                ok (match add_item (as_rstate st1) (ItProto n dots res args) with
-                                    | Some rs => Some (set_core st1 rs) | None => None end)
-                            | _, _, _ => fail
-                            end
-                        | KFunc =>
-                            match ss_mod st1, ss_func st1, split_sig sops, labs with
-                            | Some _, None, Some (res, args), [n] =>
-                                SNext (mkSstate (ss_mods st1) (ss_mod st1) (Some (mkFstate n dots res args [] [] []))
-                                         (ss_labels st1) (ss_next st1)) rest
-                            | _, _, _, _ => fail
-                            end
-                        | KEndfunc =>
-                            match ss_mod st1, ss_func st1, sops with
-                            | Some (n, items), Some fs, [] =>
-                                SNext (mkSstate (ss_mods st1) (Some (n, ItFunc (close_func fs) :: items)) None
-                                         (ss_labels st1) (ss_next st1)) rest
-                            | _, _, _ => fail
-                            end
-                        | KExport | KImport | KForward => match sops with [] => SNext st1 rest | _ => fail end
-                        | KLocal | KGlobal =>
-                            match ss_func st1 with
-                            | None => fail
-                            | Some fs =>
-                                match fold_left (fun acc s =>
-                                          match acc, s with
-                                          | Some (ls, gs), PVar t n None => Some ((t, n) :: ls, gs)
-                                          | Some (ls, gs), PVar t n (Some h) => Some (ls, (t, n, h) :: gs)
-                                          | _, _ => None
-                                          end) sops (Some (fs_locals fs, fs_globals fs)) with
-                                | Some (ls, gs) =>
-                                    SNext (mkSstate (ss_mods st1) (ss_mod st1)
-                                             (Some (mkFstate (fs_name fs) (fs_vararg fs) (fs_res fs) (fs_args fs) ls gs
-                                                      (fs_insns fs))) (ss_labels st1) (ss_next st1)) rest
-                                | None => fail
-                                end
-                            end
-                        | KData t =>
-                            match all_ops sops with
-                            | Some ops =>
-                                match map_opt (data_el t) ops with
-                                | Some els => ok (add_named st1 labs (fun n => Some (ItData n t els)))
-                                | None => fail
-                                end
-                            | None => fail
-                            end
-                        | KInsn c =>
-                            match all_ops sops with
-                            | Some ops =>
-                                if (negb (var_arity c) && negb (Nat.eqb (length ops) (insn_nops c)))%bool then fail
-                                else
-                                  match ss_func st1 with
-                                  | Some fs =>
-                                      SNext (mkSstate (ss_mods st1) (ss_mod st1)
-                                               (Some (mkFstate (fs_name fs) (fs_vararg fs) (fs_res fs) (fs_args fs)
-                                                        (fs_locals fs) (fs_globals fs) (IInsn c ops :: fs_insns fs)))
-                                               (ss_labels st1) (ss_next st1)) rest
-                                  | None => SNext st1 rest            (* insn outside a function is dropped *)
-                                  end
-                            | None => fail
-                            end
-                        end
-                    end
-                end
-          end
-      end
+  | ts1 => scan_body fuel st ts1
   end.
 
 Fixpoint scan_loop (fuel : nat) (st : sstate) (ts : list ttok) : res (list module) :=
